@@ -121,10 +121,14 @@ C["MIN_LOOKAHEAD"] = C["MAX_MATCH"] + C["MIN_MATCH"] + 1
 T = {}
 for n in ["DIST_CODE_TABLE", "LENGTH_CODE_TABLE", "LENGTH_BASE_TABLE", "DIST_BASE_TABLE", "LENGTH_EXTRA_TABLE", "DIST_EXTRA_TABLE", "TREE_CODE_ORDER_TABLE"]:
     T[n] = const_array(pc, n)
-# quantize_distance: the two index regimes
+# quantize_distance: the two index regimes. Only C04's frozen-constant comparison uses the SHAPE of the
+# two quantize functions (their behaviour is tied by the exhaustive token-alphabet correspondence of
+# C07/C03), so a rewrite of these functions is attributed to C04 alone.
+GROUP[0] = "shape04"
 qd = need(r"fn quantize_distance\(dist: u32\) -> usize \{\s*DIST_CODE_TABLE\[if dist <= (\d+) \{\s*dist - (\d+)\s*\} else \{\s*(\d+) \+ \(\(dist - (\d+)\) >> (\d+)\)\s*\} as usize\]", pc, "quantize_distance shape")
 QD = [num(qd.group(i)) for i in range(1, 6)] if qd else [0] * 5
 need(r"fn quantize_length\(len: u32\) -> usize \{\s*LENGTH_CODE_TABLE\[len as usize - MIN_MATCH as usize\]", pc, "quantize_length shape")
+GROUP[0] = "deflate"
 
 GROUP[0] = "deflate"
 he = strip_comments(src("huffman_encoding.rs"))
